@@ -9,17 +9,17 @@ BASELINE = "cd /repo && /venv/bin/python -m pytest -ra -q -p no:cacheprovider --
 CHECKS = {
     "C01": ("reference-model monitor (sumset square-and-multiply oracle) on BitLengthSet queries + operand-immutability re-query + logical-step meter (sys.monitoring) with a polynomial budget on deep narrow operator chains",
             "R-bls reference (pv/ref/bls.py), cost predictor that resamples trees the unchanged implementation cannot answer"),
-    "C02": ("reference-model monitor (R-layout) on every type object of generated universes, two build routes compared",
+    "C02": ("reference-model monitor (R-layout) on every type object of generated universes, two build routes compared, and on their pickled / deep-copied / copied forms",
             "R-layout restates the Specification's layout rules; R-bls evaluates the expected sets; cost predictor bounds divisors"),
-    "C06": ("reference-codec monitor (R-codec, independent IEEE-754 and bit packing) on serialize/deserialize + M-bitio shadow writer hooked on the real _BitWriter",
+    "C06": ("reference-codec monitor (R-codec, independent IEEE-754 and bit packing) on serialize/deserialize + M-bitio shadow writer hooked on the real _BitWriter; histories in which the judged call follows a call rejected part-way",
             "R-codec is the trusted wire-format reference; NaN payloads not compared; serdes-sized capacities"),
     "C07": ("reference-decoder monitor on hostile byte strings + M-bitio shadow reader (every read_bits vs bounded reference extraction), metamorphic zero-extension/truncation",
             "R-codec decoder decides accept/reject and the value; serdes-sized capacities"),
-    "C08": ("reference-model monitor (R-layout offsets) on iterate_fields_with_offsets/enumerate_elements_with_offsets + membership of R-codec's real field placements + @print intrinsics observed through the print handler",
+    "C08": ("reference-model monitor (R-layout offsets) on iterate_fields_with_offsets/enumerate_elements_with_offsets + membership of R-codec's real field placements + @print intrinsics observed through the print handler; the same on pickled / copied model objects",
             "R-layout / R-codec references; `_offset_` queried only where the set is small enough to expand"),
-    "C14": ("paired-revision workload: live comparison of container layouts/offsets + cross-revision serialize/deserialize against a structural projection oracle, M-bitio sub-reader shadow",
+    "C14": ("paired-revision workload: live comparison of container layouts/offsets + cross-revision serialize/deserialize against a structural projection oracle, M-bitio sub-reader shadow; layouts compared on pickled / copied type graphs too",
             "R-codec / R-layout references; D is a structure"),
-    "C16": ("M-expand probe on every Operator.expand + M-enum counting proxy for _symbolic.itertools with per-divisor invariants + sys.monitoring step meter, compared across capacity magnitudes congruent mod 64",
+    "C16": ("M-expand probe on every Operator.expand + M-enum counting proxy for _symbolic.itertools with per-divisor invariants + M-builtin (min/max/sum/sorted/any/all of the set modules charged for operand size before C code walks it) + sys.monitoring step meter, compared across capacity magnitudes congruent mod 64",
             "cost measured in logical units only; templates too expensive for the unchanged implementation at the smallest magnitude are resampled"),
     "C18": ("contract monitor over independently built object pairs (reflexive/symmetric/hash/eq-implies-same) and against foreign operands, introspected list-accessor mutation probe, pickle round-trip fingerprint in-process and in a sub-process with another hash seed (twins built there), composites with up to 300 fields",
             "R-bls decides exact set equality when small; approximate BitLengthSet equality may err towards equality as the statement allows"),
@@ -33,15 +33,15 @@ CHECKS = {
             "mutants that could only exhaust resources are dropped and counted; UTF-8 text only"),
     "C17": ("fault/@print injection at known lines and depths (incl. references misspelled in letter case only); M-tax on Error.path/line and M-print (evaluations recorded at the real directive handler vs deliveries to the user handler)",
             "finalize-time errors carry no line by design: only their path is checked"),
-    "C09": ("unique-id constants make every resolution observable; R-resolve reference on generated dependency graphs, read_namespace vs read_files in random target orders, 15 injected error shapes",
+    "C09": ("unique-id constants make every resolution observable; R-resolve reference on generated dependency graphs, read_namespace vs read_files in random target orders, 15 injected error shapes, histories re-using one lookup list object across reads",
             "R-resolve restates the resolution rule of the property"),
     "C10": ("R-order reference + determinism under injected perturbation: sub-processes with different PYTHONHASHSEED, seeded shuffling wrapper on Path.rglob, equivalent argument spellings/orders/duplicates/symlinks/container forms (incl. one-shot iterables); signatures compared byte for byte; duplicate-file and symlinked-definition-file experiments (one composite per directory entry)",
             "only accept/reject and successful results are compared (which of several errors is reported may depend on order)"),
     "C11": ("pairwise rule predicate (exactly the statement's) as oracle over generated definition families in target and referenced-lookup placement; two-definition sub-space enumerated in the thorough tier",
             "unregulated port-IDs (regulated ranges belong to C05)"),
     "C15": ("R-path oracle (identity parsed from the path by the harness) over a matrix of ~27 target/root designations with cwd changes (documented forms must succeed, off-form ones may only fail with InvalidDefinitionError); agreement of all succeeding designations; malformed names must be rejected; symlinked definition files named by their own entry",
-            "exotic numerals accepted by int() are reported, not judged; undocumented mixed designations may fail"),
-    "C19": ("differential monitor: baseline read vs re-read after replacing/adding definitions outside the R-resolve closure (incl. an unreferenced namesake of a target); outcome signature and @print log compared; audit hook records opened files",
+            "numbers in file names are plain ASCII decimal numbers (leading zeros not judged); undocumented mixed designations may fail"),
+    "C19": ("differential monitor: baseline read vs re-read after replacing/adding definitions outside the R-resolve closure (incl. an unreferenced namesake of a target and a nested namespace shadowing a referenced root name); outcome signature and @print log compared; audit hook records opened files",
             "file names stay valid"),
     "C05": ("R-rules oracle: valid-by-construction skeleton + rule mutators with known legal/illegal side at random admissible positions; accept/reject compared at the API boundary; M-conserve and M-const on",
             "rule list as restated in the property; pydsdl-specific extras avoided by the skeleton"),
